@@ -128,38 +128,11 @@ def run(prog, chk, tier):
                detail="%s: algorithm bytes %s" % (k_, algo.hex()), how="constant evaluation (pointee of the Crc constant)")
         got = [int.from_bytes(raw[8 + 4 * i:12 + 4 * i], "little") for i in range(256)] if len(raw) >= 8 + 1024 else []
         chk.ob("crc-algorithm", "the lookup table inside the constant is the CRC-32/ISO-HDLC table", got == tbl, how="256 table entries vs an independently generated table")
-    cb = prog.bodies.get(FP + "::compute")
-    if cb is None:
-        chk.fail("crc-algorithm", "Fingerprint::compute not found")
-    else:
-        sh = shape(Origins(prog, cb).local(0))
-        src = repr(sh)
-        ok = (isinstance(sh, tuple) and sh[0] == "call" and re.search(r"num::<impl u32>::to_be_bytes$", sh[1]) and sh[2][0][0] == "call"
-              and re.search(r"^(<)?crc::", sh[2][0][1]) is not None and "('param', 1)" in src)
-        chk.ob("crc-algorithm", "compute(data) = (CRC of data).to_be_bytes()", ok, detail=src[:200], how="origin")
-    # ---- (c) build side
+    from rules import content_e2 as CE
+    CE.fingerprint_compute(prog, chk)
+    # ---- (c) build side: decided from content flow (E2): what the CRC is computed over and what is appended
+    CE.fingerprint_build(prog, chk)
     from dtable import instrumented_body
-    b, ups = instrumented_body(prog, MB + "add_fingerprint_unchecked")
-    og = Origins(prog, b)
-    comp = [(bi, t) for bi, t in b.calls() if og.callee_name(t) == FP + "::compute"]
-    wr = [(bi, t) for bi, t in b.calls() if og.callee_name(t).endswith("ByteOrder>::write_u16")]
-    ok = len(comp) == 1 and len(wr) == 1
-    detail = "compute calls %d, write_u16 calls %d" % (len(comp), len(wr))
-    if ok:
-        arg = shape(og.operand(comp[0][1]["args"][0]))
-        src = repr(arg)
-        ok = re.search(r"MessageBuilder:+build'", src) is not None
-        dst = shape(og.operand(wr[0][1]["args"][0]))
-        val = shape(og.operand(wr[0][1]["args"][1]))
-        is_len_field = lambda s: isinstance(s, tuple) and s[0] == "call" and re.search(r"Index(Mut)?<std::ops::Range<usize>>", s[1]) and s[2][1][0] == "agg" and s[2][1][2] == (("const", 2), ("const", 4))
-        lf = lin_of(val, [lambda s: "old" if isinstance(s, tuple) and s[0] == "call" and s[1].endswith("ByteOrder>::read_u16") and is_len_field(s[2][0]) else None])
-        ok = ok and is_len_field(dst) and lf == ({"old": 1}, 8)
-        detail = "value written: %r" % (lf,)
-    chk.ob("build-side", "add_fingerprint: CRC over build() with the length field increased by exactly 8", ok, where=b.loc(), detail=detail, how="origin + constant")
-    # the attribute appended has padded length 8: type FINGERPRINT, length() == 4
-    lb = prog.bodies.get("<%s as stun_types::attribute::Attribute>::length" % FP)
-    ok = lb is not None and const_int(Origins(prog, lb).local(0)) == 4
-    chk.ob("build-side", "the appended attribute has length 4, i.e. 8 bytes with its header", ok, how="constant")
     # ---- (d) parse side
     b, ups = instrumented_body(prog, FROM_BYTES)
     og = Origins(prog, b)
